@@ -1917,6 +1917,11 @@ M("C13", "threshold-reset-by-a-setter-after-its-override", RUNF,
   '            constants_for_params = scenario_loader.set_immediate_shutoff(\n                constants_for_params\n            )\n\n'
   '        # apply fix multiplier to crop production\n',
   "C13.OVERRIDE")
+M("C13", "crop-ratio-rewritten-after-the-multiplier", RUNF,
+  '            except BaseException:\n                pass\n\n        return constants_for_params, time_consts_for_params, scenario_loader',
+  '            except BaseException:\n                pass\n\n        if scenario_option_copy["NMONTHS"] <= 12:\n'
+  '            constants_for_params["RATIO_CROPS_YEAR2"] = 1\n\n        return constants_for_params, time_consts_for_params, scenario_loader',
+  "C13.OVERRIDE")
 
 
 def seeded_for(pid):
